@@ -17,7 +17,7 @@ SM_KICK = [sm.CalcCoefficiants, sm.UpdateSM, sm.KickMapApply, sm.SourceMapCtor, 
 SM_FP = [sm.FokkerPlanckCtor, sm.FokkerPlanckApply]
 Z_UNITS = [z.FreeSpaceCSRCalc, z.ResistiveWallCalc, z.ConstImpedanceCalc, z.ParallelPlatesCalc, z.ImpedanceAddAssign,
            z.ImpedanceCtorRuler, z.ImpedanceCtorVec, z.ImpedanceCtorZero, z.FreeSpaceCSRCtor, z.ResistiveWallCtor, z.ConstImpedanceCtor,
-           z.ParallelPlatesCtor, z.CollimatorCtor, z.MakeImpedance]
+           z.ParallelPlatesCtor, z.CollimatorCtor, z.MakeImpedance, z.ImpedanceReadData]
 TECH = 'contract-based deductive verification: contracts (specs/*.py) enforced on the real functions by a VCG over the clang AST, z3 (cvc5 second opinion); lemma layer over contract symbols'
 
 def _kick_sweep():
@@ -141,7 +141,7 @@ PROPERTIES = {
     },
     'C16': {
         'units': Z_UNITS,
-        'native_sweep': {'harness': 'ef_replay', 'runs': [['z', n_] for n_ in list(range(2, 40)) + [255, 256, 257, 1023, 1024]] + z.FACTORY_SWEEP},
+        'native_sweep': {'harness': 'ef_replay', 'runs': [['z', n_] for n_ in list(range(2, 40)) + [255, 256, 257, 1023, 1024]] + z.FACTORY_SWEEP + [['zfile']]},
         'lemmas': [],
         'level': 'other',
         'claim': 'every impedance model (free-space CSR, parallel plates, resistive wall, constant, collimator) returns exactly n samples (n >= 2), zero above n/2, non-negative real part; '
@@ -149,7 +149,7 @@ PROPERTIES = {
                  'every model constructor stores exactly what its __calcImpedance returns for the same arguments; operator+= is the element-wise sum over the common length; '
                  'the factory returns nullptr iff nothing is selected and otherwise the element-wise sum of exactly the selected models with the stated arguments (CSR models at f0 = c/(2 pi R), wall at f_rev with L = c/f_rev and radius |gap|/2) plus the file samples',
         'assumptions': [A_IDEAL, A_LIB, DROPS, 'libm: pow(x>=0,y) >= 0, sqrt(x>=0) >= 0, log(x>1) > 0; Airy functions uninterpreted',
-                        'Impedance::readData (iostream parsing of the impedance file) is not under contract: its result is an arbitrary vector of any length',
+                        'Impedance::readData is under contract for C17 (no value used that was not read; std::istream modelled by its fail/eof flags); what it returns is otherwise an arbitrary vector of any length',
                         'model value symbols Z_<Model>(args,k) in the factory contract are definitional: each model constructor is a deterministic function of its arguments',
                         'ParallelPlatesCSR: the mode count 2*f*gap/c converted to uint32_t is below 2^31 (domain assumption on the derived value, VacuumGap*f_max < 3e17 m/s)',
                         'catch(...) in ParallelPlatesCSR is modelled as a nondeterministic jump to the handler with the try-body writes havoced'],
@@ -191,7 +191,7 @@ PROPERTIES = {
         'claim': 'every array subscript, pointer range (copy_n/fill_n/inner_product/FFT buffers), float-to-integer conversion, signed overflow, unsigned index product and division in the units under contract '
                  'is proved defined under the class invariants, and main establishes the padded-buffer precondition for every bucket; unbounded in all sizes',
         'assumptions': [A_IDEAL, A_LIB, DROPS, 'libraries are memory safe when their stated preconditions hold', 'documented option domain (see MainConfig.requires and domain_after)'],
-        'uncovered': ['functions not under contract: the Gaussian start distribution inside the PhaseSpace constructor (frame-only), the HDF5 start distribution (HDF5File::readPhaseSpace), the file-opening and line-counting prologue of makePSFromTXT (its particle loop is under contract with std::istream modelled by fail/eof flags), HDF5File, ProgramOptions, Impedance::readData, RotationMap, Display',
+        'uncovered': ['functions not under contract: the Gaussian start distribution inside the PhaseSpace constructor (frame-only), the HDF5 start distribution (HDF5File::readPhaseSpace), the file-opening and line-counting prologue of makePSFromTXT (its particle loop is under contract with std::istream modelled by fail/eof flags), HDF5File, ProgramOptions, RotationMap, Display',
                       'uninitialised reads (tables are written before use by construction order, checked only where a unit reads what it wrote)',
                       ],
         'explanation': 'automatic safety obligations of all units',
